@@ -1847,6 +1847,20 @@ func (f *fn) rangeLoop(x *ast.RangeStmt, rest []ast.Stmt, k konts) ([]string, bo
 			x = &ast.RangeStmt{For: x.For, Key: nil, Value: x.Key, Tok: x.Tok, X: x.X, Body: x.Body}
 		}
 	}
+	if sig, ok := xt.Underlying().(*types.Signature); ok && sig.Params().Len() == 1 {
+		// an iterator (iter.Seq[T]) that the target's `abstract` table replaces by the list of what it yields
+		if lst, ok := f.t.Abstract[f.text(x.X)]; ok {
+			if ys, ok := sig.Params().At(0).Type().Underlying().(*types.Signature); ok && ys.Params().Len() == 1 {
+				if x.Value != nil {
+					bad("two variables ranging over an iterator")
+				}
+				et := ys.Params().At(0).Type()
+				elemTy, list = f.leanType(et), lst
+				xt = types.NewSlice(et)
+				x = &ast.RangeStmt{For: x.For, Key: nil, Value: x.Key, Tok: x.Tok, X: x.X, Body: x.Body}
+			}
+		}
+	}
 	if call, ok := x.X.(*ast.CallExpr); ok {
 		if n, _ := f.callee(call); n == "slices.Backward" {
 			// last element first; the index variable is not supported
